@@ -52,9 +52,12 @@ unsigned int irc_ntop(char *output, unsigned int out_size, const irc_inaddr *add
         for (max_start = max_zeros = curr_zeros = ii = 0; ii < 8; ++ii) {
             if (!addr->in6[ii])
                 curr_zeros++;
-            else if (curr_zeros > max_zeros) {
-                max_start = ii - curr_zeros;
-                max_zeros = curr_zeros;
+            else {
+                if (curr_zeros > max_zeros) {
+                    max_start = ii - curr_zeros;
+                    max_zeros = curr_zeros;
+                }
+                /* Any non-zero part ends the current run. */
                 curr_zeros = 0;
             }
         }
@@ -63,10 +66,13 @@ unsigned int irc_ntop(char *output, unsigned int out_size, const irc_inaddr *add
             max_zeros = curr_zeros;
         }
 
-        /* Print out address. */
+        /* Print out address.  Only a run of two or more zero parts is
+         * written as "::" (RFC 5952 section 4.2.2): "0::" in front of
+         * seven more parts would not be a valid address.
+         */
 #define APPEND(CH) do { if (pos < out_size) output[pos] = (CH); pos++; } while (0)
         for (pos = 0, ii = 0; ii < 8; ++ii) {
-            if ((max_zeros > 0) && (ii == max_start)) {
+            if ((max_zeros > 1) && (ii == max_start)) {
                 if (ii == 0) {
                     APPEND('0');
                     APPEND(':');
